@@ -13,7 +13,34 @@ struct NsSetup {
   std::vector<std::array<int,3>> cra; // indices of each atom
   double rbuild = 0;
   bool include_h = true;
+  // the symmetry images computed here from the definition (not taken from UnitCell::images): all operations of the
+  // group except the identity, in the order of GroupOps iteration; then for every NCS operator N the image N
+  // followed by S o N for those operations S (S acts on fractional coordinates of the NCS copy)
+  std::vector<Op> sym;                // non-identity operations
 };
+
+// image number im (1-based as in Mark::image_idx; 0 = the atom itself) applied to an atom position -> fractional
+static Fractional image_of(const NsSetup& s, int im, const Position& pos) {
+  if (im == 0) return s.cell.fractionalize(pos);
+  int nsym = (int) s.sym.size();
+  int k = im - 1;
+  Position p = pos;
+  int si = -1;                        // which symmetry operation (-1 none)
+  if (k < nsym) {
+    si = k;
+  } else {
+    k -= nsym;
+    int n = k / (nsym + 1), r = k % (nsym + 1);
+    p = Position(s.ncs.at(n).tr.apply(pos));
+    si = r - 1;
+  }
+  Fractional f = s.cell.fractionalize(p);
+  if (si < 0) return f;
+  const Op& op = s.sym[si];
+  std::array<double, 3> x = op.apply_to_xyz({{f.x, f.y, f.z}});
+  return Fractional(x[0], x[1], x[2]);
+}
+static int image_count(const NsSetup& s) { return (int) s.sym.size() + (int) s.ncs.size() * ((int) s.sym.size() + 1); }
 
 // tokens: a b c al be ga  sg|-  nncs {12 numbers}  rbuild inc_h  natoms {x y z alt el}
 static size_t read_setup(const Words& w, NsSetup& s) {
@@ -25,6 +52,8 @@ static size_t read_setup(const Words& w, NsSetup& s) {
     const SpaceGroup* sg = find_spacegroup_by_name(sgname);
     if (!sg) fail("unknown space group");
     s.cell.set_cell_images_from_spacegroup(sg);
+    for (Op op : sg->operations())
+      if (op != Op::identity()) s.sym.push_back(op);
   }
   int nncs = (int) to_ll(w.at(i++));
   for (int n = 0; n < nncs; ++n) {
@@ -84,10 +113,9 @@ static std::vector<Hit> brute(const NsSetup& s, const Position& q, double rmax) 
       }
       continue;
     }
-    Fractional f0 = c.fractionalize(a.pos);
     Fractional fq = c.fractionalize(q);
-    for (int im = 0; im <= (int) c.images.size(); ++im) {
-      Fractional f = im == 0 ? f0 : c.images[im - 1].apply(f0);
+    for (int im = 0; im <= image_count(s); ++im) {
+      Fractional f = image_of(s, im, a.pos);
       Fractional d = f - fq;
       // |dfrac_i| <= a*_i |dcart|: translations that can bring the image within rmax
       double wx = rmax * c.ar + 1e-9, wy = rmax * c.br + 1e-9, wz = rmax * c.cr + 1e-9;
